@@ -151,7 +151,7 @@ Record VInv (c : config) (s : state) (hi : N) : Prop := {
 (* between a crash and the end of the restart *)
 Definition RInv (s : state) : Prop :=
   unflushed s = 0%nat /\ rdp s = RdIdle /\ app s = ApIdle /\ sns s = [] /\ ckp s = CkIdle /\ pg_wal s = false
-  /\ pg_snap s = None /\ queue s = [] /\
+  /\ pg_snap s = None /\ queue s = [] /\ wstate s = false /\
   match rc s with
   | RcStart => latest s = 0 /\ engine s = None
   | RcChosen j => j = newest (segs s) /\ 0 < j /\ latest s = j /\ (forall f, In f (snapfiles s) -> f <= j)
